@@ -201,9 +201,9 @@ impl GenB {
         let choice = if leaf {
             d.below(3)
         } else if d.below(64) == 0 {
-            20 + d.below(4)
+            21 + d.below(4)
         } else {
-            d.below(20)
+            d.below(21)
         };
         match choice {
             0 => self.small(d).to_string(),
@@ -231,9 +231,10 @@ impl GenB {
             17 => self.spread_override(d, depth, vars),
             18 => self.early_nil_step(d, depth, vars),
             19 => self.narrowed_then_shadowed(d, depth, vars),
-            20 => self.failed_branch_then_binding_branch(d, depth, vars),
-            21 => self.nil_block_bound_then_more_bindings(d, depth, vars),
-            22 => self.nil_bound_then_tested(d, depth, vars),
+            20 => self.binding_in_tuple_field(d, depth, vars),
+            21 => self.failed_branch_then_binding_branch(d, depth, vars),
+            22 => self.nil_block_bound_then_more_bindings(d, depth, vars),
+            23 => self.nil_bound_then_tested(d, depth, vars),
             _ => self.partial_param_access(d, depth, vars),
         }
     }
@@ -426,6 +427,20 @@ impl GenB {
         s
     }
 
+    /// a block whose only binding sits inside a tuple field: it must stay local to the block
+    fn binding_in_tuple_field(&mut self, d: &mut Dice, depth: u32, vars: &[String]) -> String {
+        self.features.insert("binding-inside-a-tuple-field-of-a-block");
+        let x = if !vars.is_empty() && d.below(3) != 0 { vars[d.below(vars.len())].clone() } else { self.fresh("bx") };
+        let outer = self.int(d, depth - 1, vars);
+        let (e1, e2) = (self.int(d, depth - 1, vars), self.int(d, depth - 1, vars));
+        match d.below(4) {
+            0 => format!("{{ {x} = {outer}, {{ [{e1} ={x}, {e2}] }}, {x} }}"),
+            1 => format!("{{ {x} = {outer}, {{ [{e1} ={x}, {e2}], 3 }}, {x} }}"),
+            2 => format!("{{ {x} = {outer}, {e1} {{ [~ ={x}, {e2}] }} .1 [~, {x}] __integer_add__ }}"),
+            _ => format!("{{ {x} = {outer}, {{ [[{x}, 1] __integer_add__ ={x}, 0] }}, {x} }}"),
+        }
+    }
+
     /// a union-typed variable is narrowed by a branch pattern; inside the branch a block binds a
     /// new variable of the same name and another type and dispatches on it
     fn narrowed_then_shadowed(&mut self, d: &mut Dice, depth: u32, vars: &[String]) -> String {
@@ -571,7 +586,11 @@ impl GenB {
         self.features.insert("spread-with-override");
         let (e1, e2, e3) = (self.int(d, depth - 1, vars), self.int(d, depth - 1, vars), self.int(d, depth - 1, vars));
         let a = self.fresh("sp");
-        match d.below(4) {
+        match d.below(7) {
+            // a later source gives the field another type; the result is dispatched on that type
+            4 => format!("{{ {a} = [x: {e1}, y: {e2}], {a}b = [y: 0xab, z: {e3}], [...{a}, ...{a}b] .y {{ | ='bin => {e3} | =('int)n => [n, 1] __integer_add__ }} }}"),
+            5 => format!("{{ {a}b = [y: 0xab, z: {e1}], [y: {e2}, ...{a}b] .y {{ | =('int)n => [n, 1] __integer_add__ | ='bin => {e3} }} }}"),
+            6 => format!("{{ {a} = T[x: 0xcd, y: {e1}], {a} ~[..., x: {e2}] .x {{ | ='bin => {e3} | =('int)n => [n, 2] __integer_multiply__ }} }}"),
             0 => format!("{{ {a} = [x: {e1}, y: {e2}], [y: {e3}, ...{a}] =[y: py, x: px], [px, py] __integer_subtract__ }}"),
             1 => format!("{{ {a} = [x: {e1}, y: {e2}], [...{a}, y: {e3}] =[x: px, y: py], [px, py] __integer_subtract__ }}"),
             2 => format!("{{ {a} = T[x: {e1}, y: {e2}], {a} ~[..., x: {e3}] =T[x: px, y: py], [px, py] __integer_subtract__ }}"),
@@ -828,13 +847,13 @@ pub fn run(ctx: &Ctx) -> i32 {
         ctx,
         stats: &stats,
         violations,
-        rule: "two streams, both judged by an independent reference evaluator written from docs/spec.md over the parser's AST (value flow through chains, nil short-circuit between steps, blocks/branches/condition-consequence, all pattern forms incl. repeated binders, pins, partial/star/alternation/type-ascribed patterns, tuples/spreads/field access, functions, closures, tail calls as calls, strings with holes, std modules evaluated from their source, builtins by the C12 models). (A) 1-3 token-level edits (integer literals, identifier swaps, builtin swaps within a shape group, delete/duplicate a token, reorder the neighbours of a comma or bar) of the harvested programs the evaluator covers; (B) generated integer programs nesting: literal switches, tuple switches whose patterns bind and then fail (literal after binder, repeated binder, pin, type-ascribed binder, guard after pattern), sequences with bindings in both forms, union switches, closures capturing locals, failing mid-sequence matches with a fallback branch, inner blocks that fail as a whole, ripple chains, shadowing blocks, branches that bind and fail before a branch that binds and reads, maybe-nil blocks bound before further bindings, repeated binders across a nested constructor, maybe-nil variables tested for nil, functions over a partial type reading a field whose index differs in the argument, spreads with explicit fields before and after, functions whose body is a sequence with an early step that may be nil and whose result the caller tests for nil, a narrowed union-typed variable shadowed inside the branch by a variable of another type; the result tuple re-reads every top-level binding after the main expression. A case counts when the compiler accepts it and the evaluator covers it; evaluations = such programs; non-trivial (B) = >= 3 distinct control-flow features; distinct by program text".into(),
+        rule: "two streams, both judged by an independent reference evaluator written from docs/spec.md over the parser's AST (value flow through chains, nil short-circuit between steps, blocks/branches/condition-consequence, all pattern forms incl. repeated binders, pins, partial/star/alternation/type-ascribed patterns, tuples/spreads/field access, functions, closures, tail calls as calls, strings with holes, std modules evaluated from their source, builtins by the C12 models). (A) 1-3 token-level edits (integer literals, identifier swaps, builtin swaps within a shape group, delete/duplicate a token, reorder the neighbours of a comma or bar) of the harvested programs the evaluator covers; (B) generated integer programs nesting: literal switches, tuple switches whose patterns bind and then fail (literal after binder, repeated binder, pin, type-ascribed binder, guard after pattern), sequences with bindings in both forms, union switches, closures capturing locals, failing mid-sequence matches with a fallback branch, inner blocks that fail as a whole, ripple chains, shadowing blocks, branches that bind and fail before a branch that binds and reads, maybe-nil blocks bound before further bindings, repeated binders across a nested constructor, maybe-nil variables tested for nil, functions over a partial type reading a field whose index differs in the argument, spreads with explicit fields before and after, functions whose body is a sequence with an early step that may be nil and whose result the caller tests for nil, a narrowed union-typed variable shadowed inside the branch by a variable of another type, blocks whose only binding sits inside a tuple field; the result tuple re-reads every top-level binding after the main expression. A case counts when the compiler accepts it and the evaluator covers it; evaluations = such programs; non-trivial (B) = >= 3 distinct control-flow features; distinct by program text".into(),
         assumptions: vec![
             "the reference evaluator is validated each run against the harvested programs whose expected values the repository's own tests pin (it agrees with the VM on all it covers)".into(),
             "processes, select, I/O, function equality, closures whose parameter type is inferred from context and type tests against type variables are outside the evaluator; such programs are discarded (counted)".into(),
             "a program the evaluator finds stuck (unbound name, missing field, call of a non-function) but the compiler accepts is counted, not judged here (that is C01's statement)".into(),
         ],
-        required_classes: vec!["stream:mutant-of-harvested-program", "stream:generated-control-flow", "literal-switch", "tuple-switch", "pattern:literal-after-binder", "pattern:repeated-binder", "pattern:pin", "guard-after-pattern", "sequence-with-bindings", "union-switch", "closure-capturing-locals", "failing-mid-sequence-match", "inner-block-fails-outer-falls-through", "ripple-chain", "shadowing-in-block", "branch-binds-then-fails-next-branch-binds", "maybe-nil-block-bound-then-more-bindings", "repeated-binder-across-nested-constructor", "maybe-nil-variable-tested", "partial-typed-parameter-field-access", "spread-with-override", "early-step-of-a-sequence-may-be-nil", "narrowed-variable-shadowed-in-a-block"],
+        required_classes: vec!["stream:mutant-of-harvested-program", "stream:generated-control-flow", "literal-switch", "tuple-switch", "pattern:literal-after-binder", "pattern:repeated-binder", "pattern:pin", "guard-after-pattern", "sequence-with-bindings", "union-switch", "closure-capturing-locals", "failing-mid-sequence-match", "inner-block-fails-outer-falls-through", "ripple-chain", "shadowing-in-block", "branch-binds-then-fails-next-branch-binds", "maybe-nil-block-bound-then-more-bindings", "repeated-binder-across-nested-constructor", "maybe-nil-variable-tested", "partial-typed-parameter-field-access", "spread-with-override", "early-step-of-a-sequence-may-be-nil", "narrowed-variable-shadowed-in-a-block", "binding-inside-a-tuple-field-of-a-block"],
         started,
         technique: "mutated harvested programs + proptest-generated nested control-flow programs; oracle = differential against an independent reference evaluator of the spec",
     })
